@@ -72,6 +72,11 @@ pub(crate) struct Set {
     /// synchronize with this causality.
     pub seq_cst_causality: VersionVec,
 
+    /// Object the `SeqCst` fences branch on. Such fences synchronize with each
+    /// other in the order in which they execute, which makes them dependent
+    /// operations for partial-order reduction. Created on first use.
+    pub(super) seq_cst_fence_object: Option<super::Notify>,
+
     /// `tracing` span used as the parent for new thread spans.
     iteration_span: tracing::Span,
 }
@@ -257,6 +262,7 @@ impl Set {
             threads,
             active: Some(0),
             seq_cst_causality: VersionVec::new(),
+            seq_cst_fence_object: None,
             iteration_span,
         }
     }
@@ -422,6 +428,7 @@ impl Set {
         self.execution_id = execution_id;
         self.active = Some(0);
         self.seq_cst_causality = VersionVec::new();
+        self.seq_cst_fence_object = None;
     }
 
     pub(crate) fn iter(&self) -> impl ExactSizeIterator<Item = (Id, &Thread)> + '_ {
